@@ -1,1 +1,240 @@
-fn main(){}
+//! kv — orchestrator and workers for the kismet-cache property checks.
+//!
+//!   kv run <ID> <quick|thorough>      spawn workers, merge, write evidence, exit 0/1/2
+//!   kv worker <ID> <tier> <seed> <i> <n>
+//!   kv replay <file>                   re-execute one saved case
+use kvlib::common::*;
+use serde_json::json;
+use std::io::Read;
+use std::process::{Command, Stdio};
+use std::time::{Duration, Instant};
+
+struct CheckDef {
+    id: &'static str,
+    level: &'static str,
+    workers: usize,
+    rule: &'static str,
+    run: fn(&Ctx) -> Report,
+    replay: fn(&serde_json::Value) -> Result<(), String>,
+    assumptions: &'static [&'static str],
+}
+
+fn registry() -> Vec<CheckDef> {
+    vec![CheckDef {
+        id: "C08",
+        level: "exploration",
+        workers: 16,
+        rule: "exhaustive enumeration of all sequences of <=7 identity-tagged entries over 4 ranks x 2 flags x capacities 0..=8, plus proptest-generated inputs up to 5000 entries (full-width, 3-value, sorted, reverse-sorted, near-u64::MAX ranks; capacities 0,1,n-1,n,n+1,usize::MAX,n/2,random); a case is non-trivial when n > capacity (the planner must evict); enumerated cases are distinct by construction, random ones are counted by hash of (input, capacity)",
+        run: kvlib::c08::run,
+        replay: kvlib::c08::replay,
+        assumptions: &["the closed-form acceptance predicate is the oracle; it is cross-checked in both directions against brute-force enumeration of all tie orders of the textbook queue on every input of length <=4 (quick) / <=5 (thorough) over 3 ranks before any plan is judged"],
+    }]
+}
+
+fn verif_root() -> std::path::PathBuf {
+    let exe = std::env::current_exe().unwrap();
+    // /verif/harness/target/release/kv -> /verif
+    exe.ancestors().nth(4).map(|p| p.to_path_buf()).unwrap_or_else(|| "/verif".into())
+}
+
+fn main() {
+    let args: Vec<String> = std::env::args().collect();
+    let code = match args.get(1).map(|s| s.as_str()) {
+        Some("run") => orchestrate(&args[2], &args[3]),
+        Some("worker") => worker(&args[2..]),
+        Some("replay") => replay(&args[2]),
+        _ => {
+            eprintln!("usage: kv run <ID> <quick|thorough> | kv replay <file>");
+            2
+        }
+    };
+    std::process::exit(code);
+}
+
+fn worker(a: &[String]) -> i32 {
+    let id = &a[0];
+    let tier = if a[1] == "thorough" { Tier::Thorough } else { Tier::Quick };
+    let ctx = Ctx { tier, seed: a[2].parse().unwrap(), worker: a[3].parse().unwrap(), workers: a[4].parse().unwrap() };
+    let reg = registry();
+    let def = reg.iter().find(|d| d.id == id).expect("unknown check");
+    let rep = (def.run)(&ctx);
+    println!("KVREPORT {}", serde_json::to_string(&rep).unwrap());
+    0
+}
+
+fn replay(file: &str) -> i32 {
+    let text = std::fs::read_to_string(file).expect("read replay file");
+    let v: serde_json::Value = serde_json::from_str(&text).expect("parse replay file");
+    let id = v["property"].as_str().expect("property").to_string();
+    let reg = registry();
+    let def = reg.iter().find(|d| d.id == id).expect("unknown check");
+    match (def.replay)(&v["case"]) {
+        Ok(()) => {
+            println!("replay: property {} held on this case", id);
+            0
+        }
+        Err(e) => {
+            println!("replay: {}", e);
+            println!("VIOLATION property={} replay={}", id, file);
+            1
+        }
+    }
+}
+
+fn orchestrate(id: &str, tier: &str) -> i32 {
+    let start = Instant::now();
+    let seed: u64 = std::env::var("VERIF_SEED").ok().and_then(|s| s.parse::<i64>().ok()).map(|x| x as u64).unwrap_or(1);
+    let reg = registry();
+    let def = match reg.iter().find(|d| d.id == id) {
+        Some(d) => d,
+        None => {
+            eprintln!("unknown check {}", id);
+            return 2;
+        }
+    };
+    let root = verif_root();
+    let exe = std::env::current_exe().unwrap();
+    let n = std::env::var("VERIF_WORKERS").ok().and_then(|s| s.parse().ok()).unwrap_or(def.workers);
+    let limit = Duration::from_secs(std::env::var("VERIF_TIMEOUT_S").ok().and_then(|s| s.parse().ok()).unwrap_or(if tier == "thorough" { 3 * 3600 } else { 1500 }));
+    let mut children = Vec::new();
+    for i in 0..n {
+        let child = Command::new(&exe)
+            .args(["worker", id, tier, &seed.to_string(), &i.to_string(), &n.to_string()])
+            .stdout(Stdio::piped())
+            .stderr(Stdio::inherit())
+            .spawn()
+            .expect("spawn worker");
+        children.push(child);
+    }
+    // drain stdout concurrently
+    let mut readers = Vec::new();
+    for c in children.iter_mut() {
+        let mut out = c.stdout.take().unwrap();
+        readers.push(std::thread::spawn(move || {
+            let mut s = String::new();
+            let _ = out.read_to_string(&mut s);
+            s
+        }));
+    }
+    let mut merged = Report { exhaustive: true, ..Default::default() };
+    let mut infra = Vec::new();
+    for (i, mut c) in children.into_iter().enumerate() {
+        let status = loop {
+            match c.try_wait() {
+                Ok(Some(st)) => break Some(st),
+                Ok(None) => {
+                    if start.elapsed() > limit {
+                        let _ = c.kill();
+                        let _ = c.wait();
+                        break None;
+                    }
+                    std::thread::sleep(Duration::from_millis(20));
+                }
+                Err(_) => break None,
+            }
+        };
+        let out = readers.remove(0).join().unwrap_or_default();
+        match status {
+            None => infra.push(format!("worker {} exceeded the time limit (inconclusive)", i)),
+            Some(st) if !st.success() => infra.push(format!("worker {} died: {:?}", i, st)),
+            Some(_) => match out.lines().rev().find_map(|l| l.strip_prefix("KVREPORT ")) {
+                Some(js) => match serde_json::from_str::<Report>(js) {
+                    Ok(r) => merged.merge(r),
+                    Err(e) => infra.push(format!("worker {} report unparsable: {}", i, e)),
+                },
+                None => infra.push(format!("worker {} produced no report", i)),
+            },
+        }
+    }
+    infra.extend(merged.inconclusive.iter().cloned());
+
+    // known findings
+    let known: serde_json::Value = std::fs::read_to_string(root.join("known_findings.json")).ok().and_then(|s| serde_json::from_str(&s).ok()).unwrap_or(json!({"findings": []}));
+    let is_known = |sig: &str| {
+        known["findings"].as_array().map(|a| a.iter().any(|f| f["property"] == id && f["status"] == "known" && f["signature"].as_str() == Some(sig))).unwrap_or(false)
+    };
+    let mut new_violations = Vec::new();
+    let mut known_hits = std::collections::BTreeSet::new();
+    for v in &merged.violations {
+        if is_known(&v.signature) {
+            known_hits.insert((v.signature.clone(), v.detail.clone()));
+        } else {
+            new_violations.push(v.clone());
+        }
+    }
+    // expected-but-absent known findings are still announced (they are listed, not re-derived)
+    let mut printed = std::collections::BTreeSet::new();
+    for (sig, detail) in &known_hits {
+        if printed.insert(sig.clone()) {
+            println!("KNOWN-FINDING: property={} {} — {}", id, sig, detail.replace('\n', " "));
+        }
+    }
+
+    let _ = std::fs::create_dir_all(root.join("replays"));
+    let mut replay_paths = Vec::new();
+    let mut seen_sig = std::collections::BTreeSet::new();
+    for v in &new_violations {
+        if !seen_sig.insert(v.signature.clone()) {
+            continue;
+        }
+        let name = format!("{}-{:016x}.json", id, hash_str(&format!("{}{}", v.signature, v.replay)));
+        let path = root.join("replays").join(&name);
+        let body = json!({"property": id, "signature": v.signature, "detail": v.detail, "case": v.replay});
+        let _ = std::fs::write(&path, serde_json::to_string_pretty(&body).unwrap());
+        replay_paths.push(path.clone());
+        println!("violation: {} — {}", v.signature, v.detail.replace('\n', " "));
+        println!("VIOLATION property={} replay={}", id, path.display());
+    }
+
+    let distinct = merged.nontrivial.len() as u64 + merged.nontrivial_enum;
+    let mut assumptions: Vec<String> = def.assumptions.iter().map(|s| s.to_string()).collect();
+    assumptions.extend(merged.assumptions.iter().cloned());
+    let mut coverage = json!({
+        "evaluations": merged.evaluations,
+        "distinct_nontrivial": distinct,
+        "rule": def.rule,
+        "samples": merged.samples,
+        "labels": merged.labels,
+        "exhaustive": merged.exhaustive && infra.is_empty(),
+        "excluded_known_shapes": merged.excluded_known,
+        "workers": n,
+    });
+    for (k, v) in &merged.extra {
+        coverage[k] = v.clone();
+    }
+    if !infra.is_empty() {
+        coverage["inconclusive"] = json!(infra);
+    }
+    let evidence = json!({
+        "property_id": id,
+        "tier": if tier == "thorough" { "thorough" } else { "quick" },
+        "seed": seed as i64,
+        "level": def.level,
+        "coverage": coverage,
+        "assumptions": assumptions,
+        "wall_s": start.elapsed().as_secs_f64(),
+        "violations": new_violations.len(),
+        "known_findings_seen": known_hits.iter().map(|x| x.0.clone()).collect::<Vec<_>>(),
+    });
+    let _ = std::fs::create_dir_all(root.join("evidence"));
+    std::fs::write(root.join("evidence").join(format!("{}.json", id)), serde_json::to_string_pretty(&evidence).unwrap()).expect("write evidence");
+    println!(
+        "{} {}: {} evaluations, {} distinct non-trivial, {} violation(s), {:.1}s",
+        id,
+        tier,
+        merged.evaluations,
+        distinct,
+        new_violations.len(),
+        start.elapsed().as_secs_f64()
+    );
+    if !new_violations.is_empty() {
+        1
+    } else if !infra.is_empty() {
+        for i in &infra {
+            eprintln!("INCONCLUSIVE: {}", i);
+        }
+        2
+    } else {
+        0
+    }
+}
